@@ -189,9 +189,12 @@ func checkC08(c *Ctx) {
 
 	// ---- clauses of other properties that are necessary conditions of executability ---------------
 	r.Min("C08.digest", 30)
-	r.Min("C08.signer-set", 10)
+	r.Min("C08.signer-set", 25)
 	c.include("digest", "C07", rulesIn("C07."))
 	c.include("signer-set", "C09", rulesIn("C09.membership", "C09.sorted", "C09.nonce"))
+	// one external key per validator: a key shared by two members fills two slots of the contract's signature
+	// check with one signature (and Minter's EditMultisig rejects a duplicate address list)
+	c.include("signer-set", "C17", rulesIn("C17.guards", "C17.key-shape"))
 	c.include("batch-shape", "C10", rulesIn("C10.non-empty", "C10.cap", "C10.counters"))
 	c.include("batch-shape", "C13", rulesIn("C13.older-same-token", "C13.timeout-guard", "C13.cancel-callers"))
 
